@@ -46,7 +46,7 @@ def declare(reg, eng):
     reg.contract("Lock._acquire", params=["self"], modifies=["*.available", "fs"], effect="_acquire",
                  raises={"LockError": {"when": [], "modifies": []}})
     reg.contract("Lock._release", params=["self"], modifies=["*.available", "fs"], effect="_release")
-    reg.contract("Lock.acquire", params=["self"], types={"self": "Lock"}, returns="Lock",
+    reg.contract("Lock.acquire", params=["self"], types={"self": "Lock"}, returns="Lock", effect="lock.acquire",
                  requires=["isint(self._level)"],
                  ensures=["result is self",
                           "implies(old(self._level) == 0, self._level == 1 and effect_count('_acquire') == 1)",
